@@ -4,9 +4,9 @@
     regenerated from the Go source on every run (Gen/GenExchangePerms.v, Gen/GenGovEndpoints.v). *)
 From Coq Require Import List String Bool NArith.
 Import ListNotations.
-From PV Require Import Exchange.Perms Exchange.GovGuards Exchange.GuardPaths Exchange.PermWorld
+From PV Require Import Exchange.Perms Exchange.GovGuards Exchange.GuardPaths Exchange.PermWorld Exchange.PermCommit
   Gen.GenExchangePerms Gen.GenGovEndpoints Gen.GenHandlerPaths
-  Proofs.PermsProofs Proofs.GuardPathsProofs Proofs.PermWorldProofs Proofs.RolesProofs.
+  Proofs.PermsProofs Proofs.GuardPathsProofs Proofs.PermWorldProofs Proofs.RolesProofs Proofs.PermCommitProofs.
 Open Scope string_scope.
 
 (** For every endpoint of the generated table, every store of grants, every market and caller:
@@ -390,6 +390,38 @@ Theorem C11_rejected_step_changes_nothing : forall auth w op w', wstep auth w op
 Proof. exact wstep_rejected_unchanged. Qed.
 Print Assumptions C11_rejected_step_changes_nothing.
 
+(** THE GOVERNANCE-RESERVED BRANCH of a market endpoint.  The exchange handlers that test both a Can*
+    permission and the authority are, by the generated path table, exactly MarketUpdateAcceptingCommitments;
+    on every path of it the caller was found to be the authority or validateMarketUpdateAcceptingCommitments
+    (documented shape: "already has that value", and turning commitments ON needs settlement bips > 0 or a
+    create-commitment flat fee) returned no error before any effect.  So: the flag is turned exactly by the
+    authority or a holder of PERMISSION_UPDATE on that market, to a different value, and - unless the caller
+    is the authority - ON only when the market has commitment fees; the fee options are changed only by
+    the authority; hence over EVERY history of accepting-commitments / intermediary-denom / fee requests
+    in which the authority does not act, a market without commitment fees that does not accept
+    commitments still has no fees and still does not accept commitments (the intermediary denom, which a
+    PERMISSION_UPDATE holder may set, makes no difference). *)
+Theorem C11_governance_reserved_branch :
+  reserved_branch_endpoints = ["MarketUpdateAcceptingCommitments"] /\ commit_rule_checked = true /\
+  (forall auth st m c caller new_allow,
+     snd (commit_step auth st m c (CoAccepting caller new_allow)) = true <->
+     (caller = auth \/ In (m, caller, PUpdate) st) /\
+     mc_accepting c <> new_allow /\
+     (caller = auth \/ new_allow = false \/ mc_bips c = true \/ mc_cfee c = true)) /\
+  (forall auth st m c caller a r sb ub c',
+     commit_step auth st m c (CoFees caller a r sb ub) = (c', true) -> caller = auth) /\
+  (forall auth st m c op c', commit_step auth st m c op = (c', false) -> c' = c) /\
+  (forall auth st m ops c,
+     (forall op, In op ops -> cop_caller op <> auth) ->
+     mc_accepting c = false -> mc_bips c = false -> mc_cfee c = false ->
+     let c' := commit_run auth st m c ops in
+     mc_accepting c' = false /\ mc_bips c' = false /\ mc_cfee c' = false).
+Proof.
+  exact (conj (proj2 commit_tables_check) (conj (proj1 commit_tables_check) (conj accepting_iff
+        (conj fees_only_by_authority (conj commit_step_rejected_unchanged no_commitments_without_authority))))).
+Qed.
+Print Assumptions C11_governance_reserved_branch.
+
 (** Non-vacuity: a concrete store where the guard separates callers, a request sequence that
     really grants and revokes while an unnamed triple stays, a cancellation by a permitted
     non-owner, and a payment a third party cannot touch. *)
@@ -440,4 +472,19 @@ Example C11_witness_world :
   existsb (fun r => (hp_endpoint r =? "MarketWithdraw") &&
                     existsb (fun p => existsb is_effect p && path_guarded (acceptable (RPerm PWithdraw)) p) (hp_paths r))
           gen_exchange_paths = true.
+Proof. vm_compute. repeat split. Qed.
+
+(** Non-vacuity of the reserved branch: account 5 holds PERMISSION_UPDATE on market 3, which has no
+    commitment fees: it may set the intermediary denom but not turn commitments on, before or after;
+    the authority may; once the authority has defined a create-commitment fee, account 5 may too. *)
+Example C11_witness_reserved_branch :
+  let st := [(3, 5, PUpdate)]%N in
+  let c0 := {| mc_accepting := false; mc_bips := false; mc_cfee := false; mc_denom := false |} in
+  snd (commit_step 0%N st 3%N c0 (CoAccepting 5%N true)) = false /\
+  commit_run 0%N st 3%N c0 [CoDenom 5%N true; CoAccepting 5%N true]
+    = {| mc_accepting := false; mc_bips := false; mc_cfee := false; mc_denom := true |} /\
+  snd (commit_step 0%N st 3%N c0 (CoAccepting 0%N true)) = true /\
+  snd (commit_step 0%N st 3%N c0 (CoFees 5%N true false false false)) = false /\
+  mc_accepting (commit_run 0%N st 3%N c0 [CoFees 0%N true false false false; CoAccepting 5%N true]) = true /\
+  snd (commit_step 0%N st 3%N c0 (CoAccepting 6%N true)) = false.
 Proof. vm_compute. repeat split. Qed.
